@@ -25,6 +25,8 @@ func init() {
 			Run: func(P *Program, R *Report) { fastModRule(P, R) }},
 		Rule{ID: "C19.g", Explain: "RandomPrimeInRange returns 2^start + offset, offset decoded from ceil(length/8) random bytes masked to `length` bits, only after ProbablyPrime(k >= 20) (same rule as C05.c).",
 			Run: func(P *Program, R *Report) { randomPrimeInRangeRule(P, R, "C19.g") }},
+		Rule{ID: "C19.k", Explain: "the helpers leave their inputs unchanged: no exported function of internal/common writes in place (or stores) a *big.Int parameter, except the tabled result parameters.",
+			Run: func(P *Program, R *Report) { pureInputsRule(P, R, "C19.k") }},
 		Rule{ID: "C19.h", Explain: "ProbablySafePrime is true only if x and x>>1 both pass ProbablyPrime with the caller's round count; safeprime.Generate returns 2q+1 for a candidate q of bitsize-1 bits only after ProbablySafePrime(k >= 40) (same rules as C16.b).",
 			Run: func(P *Program, R *Report) { safeprimeGenerateRule19(P, R) }},
 		Rule{ID: "C19.j", Explain: "package-level big.Int constants (bigONE, bigZERO, two, ...) are only read: never the receiver of a mutating method, never returned to a caller, never stored into a structure - an escaped constant is modified by its new owner's next in-place operation and corrupts every later computation of the process.",
@@ -546,6 +548,9 @@ func fastModRule(P *Program, R *Report) {
 
 func safeprimeGenerateRule19(P *Program, R *Report) {
 	probablySafePrimeRule(P, R, "C19.h")
+	if g := P.Func(kSPGen); g != nil && !disabledStub(P, R, "C19.h", kSPGen, g) {
+		candidateSizeRule(P, R, "C19.h", g)
+	}
 	// caller's round count is used for both tests
 	if ps := P.Func("safeprime.ProbablySafePrime"); ps != nil {
 		n, ok := 0, true
@@ -661,4 +666,40 @@ func groupExpRule(P *Program, R *Report) {
 	mp0.init()
 	res := mp0.search(fn, AcceptAny(), 0, searchOpts{startAt: []*mpState{{b: texp.Block(), note: "table exponentiation at " + P.Pos(texp.Pos())}}, startInstr: texp})
 	R.decide(rule, k+":bounded", "the exponent was tested below the group order before the table exponentiation", res.Holds, res.Path, P.Pos(texp.Pos()))
+}
+
+// pureInputsRule: the number-theoretic helpers leave their inputs unchanged: no exported function of internal/common
+// mutates in place a *big.Int it was handed, except the tabled result parameters. (A helper that "saves a copy" by
+// negating or reducing its argument in place changes the caller's signature, key or proof object.)
+var outParams = map[string]map[int]string{
+	"common.(*FastMod).Mod": {1: "ret: the documented result object"},
+	// a and b are placed in the list that is hashed; the one element of that list that is incremented in place is the
+	// counter, a fresh integer at the last position (C15.b:counter decides exactly that)
+	"common.GetHashNumber": {0: "only put into the hashed list", 1: "only put into the hashed list"},
+}
+
+func pureInputsRule(P *Program, R *Report, rule string) {
+	n := 0
+	for _, fn := range P.AllFuncs {
+		if fn.Pkg == nil || fn.Pkg.Pkg.Name() != "common" || fn.Blocks == nil || fn.Parent() != nil || fn.Object() == nil || !fn.Object().Exported() {
+			continue
+		}
+		key := FuncKey(fn)
+		for k, p := range fn.Params {
+			if !isBigIntPtr(p.Type()) {
+				continue
+			}
+			if fn.Signature.Recv() != nil && k == 0 {
+				continue
+			}
+			if outParams[key][k] != "" {
+				continue
+			}
+			n++
+			R.seen(key)
+			mut := P.mutatesParam(fn, k, 0)
+			R.decide(rule, fmt.Sprintf("%s:input(%s)", key, p.Name()), "the helper does not modify the integer it is given (math/big mutators write their receiver)", !mut, "parameter "+p.Name()+" is written in place or stored", P.Pos(fn.Pos()))
+		}
+	}
+	R.decide(rule, "common:inputs:count", "integer parameters of the exported helpers were examined (>= 15)", n >= 15, fmt.Sprintf("%d", n), "")
 }
